@@ -674,6 +674,160 @@ func sortLessParam(idx, base ssa.Value) bool {
 	return false
 }
 
+// idxResult summarises a search helper: every value the function returns is a negative integer constant ("not found")
+// or a valid index (0 <= v < len) of one sequence reachable from one of its parameters by field selections.
+type idxResult struct {
+	param int    // position of the parameter (the receiver is 0)
+	path  string // the field selections from it, as canon writes them (".groups")
+	negs  []int64
+}
+
+var idxResultMemo = map[*ssa.Function]*idxResult{}
+
+// paramSeq: v is parameter #i of fn followed by field selections (loads included): i and the selections; -1 otherwise.
+func paramSeq(fn *ssa.Function, v ssa.Value) (int, string) {
+	path := ""
+	for k := 0; k < 12; k++ {
+		switch x := v.(type) {
+		case *ssa.UnOp:
+			if x.Op != token.MUL {
+				return -1, ""
+			}
+			v = x.X
+		case *ssa.FieldAddr:
+			path = "." + core.FieldAddrVar(x).Name() + path
+			v = x.X
+		case *ssa.Field:
+			path = "." + core.FieldAddrVar(x).Name() + path
+			v = x.X
+		case *ssa.ChangeType:
+			v = x.X
+		case *ssa.Parameter:
+			for i, q := range fn.Params {
+				if q == x {
+					return i, path
+				}
+			}
+			return -1, ""
+		default:
+			return -1, ""
+		}
+	}
+	return -1, ""
+}
+
+// indexResult decides the summary with the analysis of this file: each returned value is judged as an index site of
+// the sequence it was compared with, under the conditions that dominate its return.
+func indexResult(g *ssa.Function) *idxResult {
+	if g == nil || len(g.Blocks) == 0 || g.Signature.Results().Len() != 1 {
+		return nil
+	}
+	if r, ok := idxResultMemo[g]; ok {
+		return r
+	}
+	idxResultMemo[g] = nil // recursion: undecided
+	if b, ok := g.Signature.Results().At(0).Type().Underlying().(*types.Basic); !ok || b.Info()&types.IsInteger == 0 {
+		return nil
+	}
+	res := &idxResult{param: -1}
+	var one func(v ssa.Value, at ssa.Instruction, conds []core.CondEdge, depth int) bool
+	one = func(v ssa.Value, at ssa.Instruction, conds []core.CondEdge, depth int) bool {
+		if k, isC := core.ConstInt(v); isC {
+			if k >= 0 {
+				return false
+			}
+			res.negs = append(res.negs, k)
+			return true
+		}
+		if ph, ok := v.(*ssa.Phi); ok && !inLoopHeaderWithSelf(ph) && depth < 2 {
+			// `found := -1; … found = i; break … return found`: each incoming value under the conditions of its edge
+			for i, e := range ph.Edges {
+				pr := ph.Block().Preds[i]
+				c2 := append([]core.CondEdge{}, core.ControllingConds(pr)...)
+				if iff, ok := pr.Instrs[len(pr.Instrs)-1].(*ssa.If); ok && pr.Succs[0] != pr.Succs[1] {
+					c2 = append(c2, core.CondEdge{Cond: iff.Cond, Taken: pr.Succs[0] == ph.Block(), If: iff})
+				}
+				if !one(e, at, c2, depth+1) {
+					return false
+				}
+			}
+			return true
+		}
+		ctx := &idxCtx{conds: conds, aliases: []ssa.Value{v}}
+		for _, cm := range ctx.cmps() {
+			seq, isLen := isLenCall(cm.other)
+			if cm.op != token.LSS || !isLen {
+				continue
+			}
+			pi, path := paramSeq(g, seq)
+			if pi < 0 || (res.param >= 0 && (res.param != pi || res.path != path)) {
+				continue
+			}
+			if miss, _ := inRange(varIdxSite{fn: g, instr: at, base: seq, idx: v, kind: "index"}, v, ctx, 1); miss == "" {
+				res.param, res.path = pi, path
+				return true
+			}
+		}
+		return false
+	}
+	rets := core.Returns(g)
+	for _, ret := range rets {
+		if !one(ret.Results[0], ret, core.ControllingConds(ret.Block()), 0) {
+			return nil
+		}
+	}
+	if len(rets) == 0 || res.param < 0 {
+		return nil
+	}
+	idxResultMemo[g] = res
+	return res
+}
+
+// searchHit: j is the result of a search helper (indexResult) asked about the very sequence base denotes: then j is
+// below len(base) whenever it is not one of the helper's negative results; nonneg tells whether the conditions on j at
+// the site exclude those.
+func searchHit(j ssa.Value, base ssa.Value, conds []core.CondEdge) (match, nonneg bool) {
+	c, ok := j.(*ssa.Call)
+	if !ok || c.Call.IsInvoke() {
+		return false, false
+	}
+	sum := indexResult(c.Call.StaticCallee())
+	if sum == nil || sum.param >= len(c.Call.Args) {
+		return false, false
+	}
+	want := canon(c.Call.Args[sum.param]) + sum.path
+	if canon(base) != want && canon(derefLocal(base)) != want {
+		return false, false
+	}
+	lb := int64(0)
+	for _, n := range sum.negs {
+		lb = min(lb, n)
+	}
+	excluded := map[int64]bool{}
+	ctx := &idxCtx{conds: conds, aliases: []ssa.Value{j}}
+	for _, cm := range ctx.cmps() {
+		k, isC := core.ConstInt(cm.other)
+		if !isC {
+			continue
+		}
+		switch cm.op {
+		case token.GEQ, token.EQL:
+			lb = max(lb, k)
+		case token.GTR:
+			lb = max(lb, k+1)
+		case token.NEQ:
+			excluded[k] = true
+		}
+	}
+	nonneg = true
+	for _, n := range sum.negs {
+		if n >= lb && !excluded[n] {
+			nonneg = false
+		}
+	}
+	return true, nonneg
+}
+
 // inRange decides one index value under a context; returns what is missing ("" = in range) and why it is in range.
 func inRange(s varIdxSite, idx ssa.Value, ctx *idxCtx, depth int) (string, string) {
 	if depth > 4 {
@@ -754,6 +908,13 @@ func inRange(s varIdxSite, idx ssa.Value, ctx *idxCtx, depth int) (string, strin
 					why = "min(len, …)"
 				}
 			}
+		}
+	}
+	// the result of a search helper that returns an index of this very sequence or a negative "not found"
+	if s.measured == "" {
+		if match, nonneg := searchHit(idx, base, ctx.conds); match && nonneg {
+			lb = max(lb, 0)
+			setBelow("index returned by a search of the same value (its negative results are excluded here)")
 		}
 	}
 	cmps := ctx.cmps()
@@ -865,6 +1026,18 @@ func inRange(s varIdxSite, idx ssa.Value, ctx *idxCtx, depth int) (string, strin
 				k, isC := core.ConstInt(pr[1])
 				if !isC || k < 0 {
 					continue
+				}
+				// j found by a search of the same value: 0 <= j < len
+				if match, nonneg := searchHit(j, base, ctx.conds); match && nonneg && s.measured == "" {
+					lb = max(lb, k)
+					if k == 0 {
+						setBelow("found index + 0")
+					} else if k == 1 {
+						atMost = true
+						if why == "" {
+							why = "j + 1 with j an index returned by a search of the same value"
+						}
+					}
 				}
 				c2 := &idxCtx{conds: ctx.conds, aliases: []ssa.Value{j}}
 				for _, cm := range c2.cmps() {
